@@ -49,9 +49,27 @@ type controller struct {
 	client service
 	pools  *config.Pools
 	ips    *allocator.Allocator
+	// reprocessPending is set when a call that had to ask for a reprocess of
+	// all the services ended with a failed status write, which only asks for a
+	// retry of that service: the request is made by the next successful call.
+	reprocessPending bool
 }
 
-func (c *controller) SetBalancer(l log.Logger, name string, svcRo *v1.Service, _ []discovery.EndpointSlice) controllers.SyncState {
+func (c *controller) SetBalancer(l log.Logger, name string, svcRo *v1.Service, eps []discovery.EndpointSlice) controllers.SyncState {
+	res := c.setBalancer(l, name, svcRo, eps)
+	switch res {
+	case controllers.SyncStateReprocessAll:
+		c.reprocessPending = false
+	case controllers.SyncStateSuccess, controllers.SyncStateErrorNoRetry:
+		if c.reprocessPending {
+			c.reprocessPending = false
+			return controllers.SyncStateReprocessAll
+		}
+	}
+	return res
+}
+
+func (c *controller) setBalancer(l log.Logger, name string, svcRo *v1.Service, _ []discovery.EndpointSlice) controllers.SyncState {
 	level.Debug(l).Log("event", "startUpdate", "msg", "start of service update")
 	defer level.Debug(l).Log("event", "endUpdate", "msg", "end of service update")
 
@@ -141,6 +159,10 @@ func (c *controller) SetBalancer(l log.Logger, name string, svcRo *v1.Service, _
 	if !reflect.DeepEqual(toWrite, svcRo) {
 		if err := c.client.UpdateStatus(svc); err != nil {
 			level.Error(l).Log("op", "updateServiceStatus", "error", err, "msg", "failed to update service")
+			if syncStateRes == controllers.SyncStateReprocessAll {
+				// The retry will not see what this call released.
+				c.reprocessPending = true
+			}
 			return controllers.SyncStateError
 		}
 		level.Info(l).Log("event", "serviceUpdated", "msg", "updated service object")
